@@ -3,6 +3,7 @@ use serde_json::Value;
 use crate::engine::{Ctx, Outcome};
 
 pub mod c01;
+pub mod c02;
 pub mod c03;
 pub mod c06;
 pub mod c07;
@@ -26,6 +27,10 @@ pub fn lookup(id: &str) -> Option<Prop> {
         "C01" => Prop {
             check: c01::check,
             replay: c01::replay,
+        },
+        "C02" => Prop {
+            check: c02::check,
+            replay: c02::replay,
         },
         "C03" => Prop {
             check: c03::check,
